@@ -9,6 +9,7 @@ package core
 // oneof wrapper is non-nil; condition values are arbitrary JSON values.
 
 //@ func extractHasVals
+//@   vars h vals cond val l ok v ok x s ok
 //@   property C06
 //@   option prelude=json
 //@   option load=gripql
@@ -20,6 +21,7 @@ package core
 // IndexStartOptimize: every index it remembers is a valid position of the pipeline,
 // so none of its slice and index expressions can go out of range.
 //@ func IndexStartOptimize
+//@   vars pipe optimized hasIDIdx hasLabelIdx isDone i step v ok s and stmts newPipe stmt cond path idOpt ids idx has ok has ok hIdx labelOpt labels idx has ok has ok hIdx i step
 //@   property C06 C02
 //@   option prelude=opt
 //@   callsite NewListFromStrings requires nodup: forall p, q :: 0 <= p && p < q && q < len(arg0) ==> arg0[p] != arg0[q]
@@ -56,6 +58,7 @@ package core
 // limit(n): signals pass in place; exactly the first min(N, n) non-signal travelers are
 // forwarded, where N is the untruncated count; the output is a subsequence of the input.
 //@ func (*Limit).Process$1
+//@   vars out in l cancel i t
 //@   property C01
 //@   option prelude=trav
 //@   option load=gdbi
@@ -83,6 +86,7 @@ package core
 // skip(n): signals pass in place; exactly the non-signal travelers of rank >= n are
 // forwarded (the last max(0, N - n) of them).
 //@ func (*Skip).Process$1
+//@   vars out in o i t
 //@   property C01
 //@   option prelude=trav
 //@   option load=gdbi
@@ -110,6 +114,7 @@ package core
 // range(a, b): signals pass in place; exactly the non-signal travelers of rank r with
 // a <= r and (r < b or b == -1) are forwarded.
 //@ func (*Range).Process$1
+//@   vars out in r cancel i t
 //@   property C01
 //@   option prelude=trav
 //@   option load=gdbi
@@ -143,6 +148,7 @@ package core
 // count(): signals pass in place, then one traveler whose Count is the number of
 // non-signal travelers received.
 //@ func (*Count).Process$1
+//@   vars out in i t
 //@   property C01 C02
 //@   option prelude=trav
 //@   option load=gdbi
@@ -168,6 +174,7 @@ package core
 //@       ptr(out[cnt(in, len(in))], "*gdbi.BaseTraveler").Count == nonsig(in, len(in))
 
 //@ func contains
+//@   vars a v i
 //@   property C01
 //@   nopanic
 //@   pure
@@ -177,6 +184,7 @@ package core
 // has(expr): signals pass in place; a non-signal traveler is forwarded iff the
 // has-expression holds for it (hm, defined by MatchesHasExpression's contract, C08).
 //@ func (*Has).Process$1
+//@   vars out in w t
 //@   property C01 C08
 //@   option prelude=trav,json
 //@   option load=gdbi,engine/logic,gripql,jsonpath
@@ -197,6 +205,7 @@ package core
 // hasLabel(ls): a non-signal traveler is forwarded iff it has a current element whose
 // label is one of ls (the captured, de-duplicated list).
 //@ func (*HasLabel).Process$1
+//@   vars out in labels t cur
 //@   property C01 C06
 //@   option prelude=trav
 //@   option load=gdbi
@@ -220,6 +229,7 @@ package core
 // hasId(ids): a non-signal traveler is forwarded iff it has a current element whose id
 // is one of ids.
 //@ func dedupStringSlice
+//@   vars s seen j v ok
 //@   property C01 C06 C02
 //@   nopanic
 //@   modifies SH.Str MapD.Str MapN alloc
@@ -236,6 +246,7 @@ package core
 //@       (forall p :: 0 <= p && p < len(result) ==> (exists q :: 0 <= q && q < len(s) && result[p] == old(s[q])))
 
 //@ func (*HasID).Process$1
+//@   vars out h in ids t
 //@   property C01 C06
 //@   option prelude=trav
 //@   option load=gdbi
@@ -264,6 +275,7 @@ package core
 // filters, select, render, path, fields, distinct and aggregate are rejected with an
 // error (and no processor) on anything that is not a vertex or an edge.
 //@ func StatementProcessor
+//@   vars gs db ps stmt stmt stmt stmt stmt stmt stmt stmt stmt stmt stmt stmt stmt stmt stmt stmt stmt stmt stmt stmt stmt stmt stmt stmt stmt stmt stmt stmt ids ids labels labels labels labels labels labels labels labels labels labels labels keys ids fields err j fields aggs a ok proc
 //@   property C01 C19 C14
 //@   option prelude=typing
 //@   modifies H.engine_pipeline.State. MapD. MapV. MapN alloc H.engine_core. H.engine_logic. SH.Str SH.Any Box.
@@ -352,6 +364,7 @@ package core
 
 // count: one result whose value is the number of rows received.
 //@ func (*aggregate).Process$7
+//@   vars aChans a out count
 //@   property C19
 //@   option prelude=trav
 //@   option load=gdbi,gripql
@@ -369,6 +382,7 @@ package core
 // a number are collected; every emitted bucket [b, b+i) carries the number of collected
 // values that lie in it.
 //@ func (*aggregate).Process$3
+//@   vars a aChans out maxValues hagg i c fieldValues outErr t val fval err min max bucket count v
 //@   property C19 C06
 //@   option prelude=trav,json
 //@   option load=gdbi,gripql,jsonpath
@@ -395,6 +409,7 @@ package core
 // is given (the buckets are taken from the head of the list sort.SliceStable ordered by
 // decreasing count; the library sort is not modelled).
 //@ func (*aggregate).Process$2
+//@   vars a aChans out maxTerms tagg size outErr fieldTermCounts t val k terms term tcount n tc i j
 //@   property C19
 //@   option prelude=trav,json
 //@   option load=gdbi,gripql,jsonpath
@@ -423,6 +438,7 @@ package core
 // Input model: items of the input are non-nil travelers; a traveler may carry no current
 // element (null-producing steps), unloaded data, no marks.
 //@ func (*Fields).Process$1
+//@   vars out in f t o
 //@   property C06
 //@   option prelude=trav,json
 //@   option load=gdbi,gripql,jsonpath
@@ -433,6 +449,7 @@ package core
 //@   loop 1 invariant open: !closed(out) && 0 <= rd(in) && rd(in) <= len(in)
 
 //@ func (*Render).Process$1
+//@   vars out in r t v
 //@   property C06
 //@   option prelude=trav,json
 //@   option load=gdbi,gripql,jsonpath
@@ -443,6 +460,7 @@ package core
 //@   loop 1 invariant open: !closed(out) && 0 <= rd(in) && rd(in) <= len(in)
 
 //@ func (*Path).Process$1
+//@   vars out in t
 //@   property C06
 //@   option prelude=trav,json
 //@   option load=gdbi,gripql,jsonpath
@@ -452,6 +470,7 @@ package core
 //@   loop 1 invariant open: !closed(out) && 0 <= rd(in) && rd(in) <= len(in)
 
 //@ func (*Unwind).Process$1
+//@   vars out in r t v a ok cur i o n o n cur o n
 //@   property C06
 //@   option prelude=trav,json
 //@   option load=gdbi,gripql,jsonpath
@@ -462,6 +481,7 @@ package core
 //@   loop 1 invariant open: !closed(out) && 0 <= rd(in) && rd(in) <= len(in)
 
 //@ func (*HasKey).Process$1
+//@   vars h out in keys t found key
 //@   property C06
 //@   option prelude=trav,json
 //@   option load=gdbi,gripql,jsonpath
@@ -472,6 +492,7 @@ package core
 //@   loop 1 invariant open: !closed(out) && 0 <= rd(in) && rd(in) <= len(in)
 
 //@ func (*Distinct).Process$1
+//@   vars out man in g kv t s found i v k
 //@   property C06
 //@   option prelude=trav,json
 //@   option load=gdbi,gripql,jsonpath
@@ -483,6 +504,7 @@ package core
 //@   loop 1 invariant open: !closed(out) && 0 <= rd(in) && rd(in) <= len(in)
 
 //@ func (*Marker).Process$1
+//@   vars out in m t
 //@   property C06
 //@   option prelude=trav,json
 //@   option load=gdbi,gripql,jsonpath
@@ -493,6 +515,7 @@ package core
 //@   loop 1 invariant open: !closed(out) && 0 <= rd(in) && rd(in) <= len(in)
 
 //@ func (*Selector).Process$1
+//@   vars out in s t res mark val
 //@   property C06
 //@   option prelude=trav,json
 //@   option load=gdbi,gripql,jsonpath
@@ -503,6 +526,7 @@ package core
 //@   loop 1 invariant open: !closed(out) && 0 <= rd(in) && rd(in) <= len(in)
 
 //@ func (*ValueSet).Process$1
+//@   vars out in s t
 //@   property C06
 //@   option prelude=trav,json
 //@   option load=gdbi,gripql,jsonpath
@@ -513,6 +537,7 @@ package core
 //@   loop 1 invariant open: !closed(out) && 0 <= rd(in) && rd(in) <= len(in)
 
 //@ func (*ValueIncrement).Process$1
+//@   vars out in s t v i o
 //@   property C06
 //@   option prelude=trav,json
 //@   option load=gdbi,gripql,jsonpath
@@ -523,6 +548,7 @@ package core
 //@   loop 1 invariant open: !closed(out) && 0 <= rd(in) && rd(in) <= len(in)
 
 //@ func (*MarkSelect).Process$1
+//@   vars out in s t m
 //@   property C06
 //@   option prelude=trav,json
 //@   option load=gdbi,gripql,jsonpath
@@ -538,6 +564,7 @@ package core
 // covers), exactly as for the MongoDB compiler; a statement the table rejects makes Compile
 // return an error.
 //@ func (DefaultCompiler).Compile
+//@   vars comp stmts opts err o ps procs i gs p err
 //@   property C01 C14
 //@   option prelude=typing
 //@   option load=gripql,gdbi,engine/pipeline,engine/inspect
@@ -583,6 +610,7 @@ package core
 
 // Validate only reads its arguments.
 //@ func Validate
+//@   vars stmts opts i gs
 //@   property C01
 //@   option load=gripql,gdbi
 //@   pure
@@ -606,6 +634,7 @@ package core
 // fnd(m) counts the found ids among the first m requested; the graph's answers (vexists,
 // vlistlen, vlistid) are named by the assumed GraphInterface contract in spec/externs.gvc.
 //@ func (*LookupVerts).Process$1
+//@   vars out in l ctx t v i v
 //@   property C01 C06
 //@   option prelude=trav
 //@   option load=gdbi
@@ -669,6 +698,7 @@ package core
 
 // E(id...) / E(): the same contract over the edge listing and edge lookups.
 //@ func (*LookupEdges).Process$1
+//@   vars out in l ctx t v i v
 //@   property C01 C06
 //@   option prelude=trav
 //@   option load=gdbi
@@ -736,6 +766,7 @@ package core
 // "null" rows of outENull/inENull) asks for no id, every other traveler for the To
 // (resp. From) endpoint of its current edge. The request channel is closed at the end.
 //@ func (*LookupEdgeAdjOut).Process$1
+//@   vars queryChan in t
 //@   property C01 C06
 //@   option prelude=trav
 //@   option load=gdbi
@@ -750,6 +781,7 @@ package core
 //@   ensures reqs: forall j :: 0 <= j && j < len(in) ==> queryChan[j].Ref == in[j] &&
 //@       queryChan[j].ID == ite(tSignal(in[j]) || tCurrent(in[j]) == 0, "", cast(tCurrent(in[j]), "*gdbi.DataElement").To)
 //@ func (*LookupEdgeAdjIn).Process$1
+//@   vars queryChan in t
 //@   property C01 C06
 //@   option prelude=trav
 //@   option load=gdbi
@@ -767,6 +799,7 @@ package core
 // The request side of the steps that start from a vertex: the id asked for is the id of
 // the traveler's current element (none for a signal or a traveler without one).
 //@ func (*LookupVertexAdjOut).Process$1
+//@   vars queryChan in t
 //@   property C01 C06
 //@   option prelude=trav
 //@   option load=gdbi
@@ -781,6 +814,7 @@ package core
 //@   ensures reqs: forall j :: 0 <= j && j < len(in) ==> queryChan[j].Ref == in[j] &&
 //@       queryChan[j].ID == ite(tSignal(in[j]) || tCurrent(in[j]) == 0, "", cast(tCurrent(in[j]), "*gdbi.DataElement").ID)
 //@ func (*LookupVertexAdjIn).Process$1
+//@   vars queryChan in t
 //@   property C01 C06
 //@   option prelude=trav
 //@   option load=gdbi
@@ -795,6 +829,7 @@ package core
 //@   ensures reqs: forall j :: 0 <= j && j < len(in) ==> queryChan[j].Ref == in[j] &&
 //@       queryChan[j].ID == ite(tSignal(in[j]) || tCurrent(in[j]) == 0, "", cast(tCurrent(in[j]), "*gdbi.DataElement").ID)
 //@ func (*InE).Process$1
+//@   vars queryChan in t
 //@   property C01 C06
 //@   option prelude=trav
 //@   option load=gdbi
@@ -809,6 +844,7 @@ package core
 //@   ensures reqs: forall j :: 0 <= j && j < len(in) ==> queryChan[j].Ref == in[j] &&
 //@       queryChan[j].ID == ite(tSignal(in[j]) || tCurrent(in[j]) == 0, "", cast(tCurrent(in[j]), "*gdbi.DataElement").ID)
 //@ func (*OutE).Process$1
+//@   vars queryChan in t
 //@   property C01 C06
 //@   option prelude=trav
 //@   option load=gdbi
@@ -830,6 +866,7 @@ package core
 // *Null steps). outE() has no signal branch: a signal comes out as a copy that is still a
 // signal. Which answers the graph gives is the driver's contract (assumed, externs.gvc).
 //@ func (*LookupVertexAdjOut).Process$2
+//@   vars out l ctx queryChan ov i
 //@   property C01 C06
 //@   option prelude=trav
 //@   option load=gdbi
@@ -840,6 +877,7 @@ package core
 //@   loop 1 invariant elems: forall k :: 0 <= k && k < rd(rangechan) ==> (tSignal(rangechan[k].Ref) ==> out[k] == rangechan[k].Ref) && (!tSignal(rangechan[k].Ref) ==> tCurrent(out[k]) == rangechan[k].Vertex && !tSignal(out[k]))
 //@   ensures closed: closed(out)
 //@ func (*LookupVertexAdjIn).Process$2
+//@   vars out l ctx queryChan v i
 //@   property C01 C06
 //@   option prelude=trav
 //@   option load=gdbi
@@ -850,6 +888,7 @@ package core
 //@   loop 1 invariant elems: forall k :: 0 <= k && k < rd(rangechan) ==> (tSignal(rangechan[k].Ref) ==> out[k] == rangechan[k].Ref) && (!tSignal(rangechan[k].Ref) ==> tCurrent(out[k]) == rangechan[k].Vertex && !tSignal(out[k]))
 //@   ensures closed: closed(out)
 //@ func (*LookupEdgeAdjOut).Process$2
+//@   vars out l ctx queryChan v i
 //@   property C01 C06
 //@   option prelude=trav
 //@   option load=gdbi
@@ -860,6 +899,7 @@ package core
 //@   loop 1 invariant elems: forall k :: 0 <= k && k < rd(rangechan) ==> (tSignal(rangechan[k].Ref) ==> out[k] == rangechan[k].Ref) && (!tSignal(rangechan[k].Ref) ==> tCurrent(out[k]) == rangechan[k].Vertex && !tSignal(out[k]))
 //@   ensures closed: closed(out)
 //@ func (*LookupEdgeAdjIn).Process$2
+//@   vars out l ctx queryChan v i
 //@   property C01 C06
 //@   option prelude=trav
 //@   option load=gdbi
@@ -870,6 +910,7 @@ package core
 //@   loop 1 invariant elems: forall k :: 0 <= k && k < rd(rangechan) ==> (tSignal(rangechan[k].Ref) ==> out[k] == rangechan[k].Ref) && (!tSignal(rangechan[k].Ref) ==> tCurrent(out[k]) == rangechan[k].Vertex && !tSignal(out[k]))
 //@   ensures closed: closed(out)
 //@ func (*InE).Process$2
+//@   vars out l ctx queryChan v i
 //@   property C01 C06
 //@   option prelude=trav
 //@   option load=gdbi
@@ -880,6 +921,7 @@ package core
 //@   loop 1 invariant elems: forall k :: 0 <= k && k < rd(rangechan) ==> (tSignal(rangechan[k].Ref) ==> out[k] == rangechan[k].Ref) && (!tSignal(rangechan[k].Ref) ==> tCurrent(out[k]) == rangechan[k].Edge && !tSignal(out[k]))
 //@   ensures closed: closed(out)
 //@ func (*OutE).Process$2
+//@   vars out l ctx queryChan v i
 //@   property C01 C06
 //@   option prelude=trav
 //@   option load=gdbi
